@@ -355,12 +355,13 @@ class LoopSpec:
              unfoldings (instances of spec-function definitions) to assume
     """
 
-    def __init__(self, slots, inv, using=None, name=None, fresh_val=None):
+    def __init__(self, slots, inv, using=None, name=None, fresh_val=None, step=None):
         self.slots = slots
         self.inv = inv
         self.using = using
         self.name = name
         self.fresh_val = fresh_val or {}
+        self.step = step      # optional f(ex, fr, i, before, after) -> [(label, BoolRef)]: what one iteration does
 
 
 # ---------------------------------------------------------------------------
@@ -1358,6 +1359,8 @@ class Ex:
                         hit = True
                     if getattr(sl, "owned", None) is not None and any(o is obj for o in sl.owned):
                         hit = True
+                    if getattr(obj, "_slot_owned", None) is not None and obj._slot_owned == getattr(sl, "local", None):
+                        hit = True      # an object materialised by (some loop's) slot for this very local
                 if not hit:
                     # a write to a pre-existing object outside the loop's modifies-set: the frame obligation fails
                     nm = spec.name or f"{fr.fi.qualname.split('.')[-1]}#loop{key[1]}"
@@ -1430,6 +1433,9 @@ class Ex:
                 return
             vals1 = self._loop_state(spec, fr)
             i1 = i + 1
+            if spec.step:
+                for lab, f in spec.step(self, fr, i, vals, vals1):
+                    self.prove_inv(f"{name}:step:{lab}", f)
             if spec.using:
                 for u in spec.using(self, fr, i1, vals1):
                     self.assume_def(u)
